@@ -4,6 +4,8 @@ import (
 	"bytes"
 	"encoding/json"
 	"fmt"
+	"maps"
+	"slices"
 	"strings"
 
 	"github.com/cedar-policy/cedar-go/internal/consts"
@@ -138,7 +140,9 @@ func (j arrayJSON) ToNode() (ast.Node, error) {
 
 func (j recordJSON) ToNode() (ast.Node, error) {
 	var nodes ast.Pairs
-	for k, v := range j {
+	// Go map order is random: list the entries in key order so that the same JSON always decodes to the same AST.
+	for _, k := range slices.Sorted(maps.Keys(j)) {
+		v := j[k]
 		if v == nil {
 			return ast.Node{}, fmt.Errorf("error in record: missing value for key %q", k)
 		}
